@@ -307,6 +307,7 @@ def run_property(prop, tier, seed, only=None, verbose=False):
     say("%s: %d/%d obligations discharged (%d/%d path instances), %d unknown, %d errors, %.1fs" % (
         prop, n_log_ok, n_log, n_inst_ok, n_inst, len(status['unknown']), len(status['errors']), wall))
     code = 0
+    confirmed = [v for v in status['violations'] if v[0] != 'obligation' or v[3] == '']
     if status['errors']:
         for e in status['errors']:
             say("CHECKER-ERROR: %s" % e)
@@ -315,10 +316,17 @@ def run_property(prop, tier, seed, only=None, verbose=False):
         for u in status['unknown'][:20]:
             say("UNDECIDED: %s" % u)
         code = max(code, 2) if code != 3 else 3
-    if status['violations'] and code != 3:
+    # A violation whose counter-model was REPLAYED on the real code (the clause is false natively on that input) stands on
+    # its own: neither a clause that vanished elsewhere nor a disagreement in another target can make it a false alarm, so
+    # it is reported (exit 1) together with those messages.  A violation without a failing input is reported only when the
+    # run has no checker error.
+    vanished_only = all(e.startswith('expected obligations no longer generated') for e in status['errors'])
+    if status['violations'] and (code != 3 or confirmed or vanished_only):
         for v in status['violations']:
             if v[0] == 'obligation':
                 _, ob, path, suffix = v
+                if code == 3 and suffix and not vanished_only:
+                    continue
                 say("  failed obligation: %s [%s]" % (ob.oid, ob.backend))
                 say("VIOLATION property=%s replay=%s%s" % (prop, path, suffix))
             else:
